@@ -25,9 +25,9 @@ RULE = ("history runs: 20-400 (address, value) writes and address reads over 0x2
         "of a seeded permutation of all 8192 VRAM bits, each flipped alone on a cleared display")
 SCHEDULE_MEASURE = "distinct operation-history hashes; VRAM bits flipped (of 8192)"
 COMPONENTS = {
-    "real": ["pce500/display/controller_wrapper.py HD61202Controller.read/write/get_snapshot/get_display_buffer",
+    "real": ["pce500/display/controller_wrapper.py HD61202Controller.read/write/reset/get_display_buffer",
              "pce500/display/hd61202.py", "pce500/display/pipeline.py",
-             "sc62015/core/src/lcd.rs LcdController::{read,write,export_snapshot,display_buffer}"],
+             "sc62015/core/src/lcd.rs LcdController::{read,write,reset,export_snapshot,display_buffer}"],
     "stub": ["the bus in front of the controllers (machine-level LCD traffic is exercised by C16/C11)"],
 }
 ASSUMPTIONS = ["start_line scrolling of the rendered buffer is not part of the property (pixel clause checked with "
